@@ -224,5 +224,8 @@ func (iter *UnsavedFastIterator) Close() error {
 
 // Error implements store.Iterator
 func (iter *UnsavedFastIterator) Error() error {
+	if iter.err == nil && iter.fastIterator != nil {
+		return iter.fastIterator.Error()
+	}
 	return iter.err
 }
